@@ -1001,9 +1001,17 @@ fn run(mut ch: Chooser, ctx: &RunCtx, faults: bool, big: bool) -> RunOut {
         let irtt = ks.initial_rtt_ms.min(kc.initial_rtt_ms) * MS;
         net.base_delay = net.base_delay.min(irtt / 4);
         net.jitter = net.jitter.min(irtt / 4);
+        // (... and a rate cap must not hold a padded PATH_RESPONSE back for longer than three
+        // probe timeouts on a fast path: same loop, same section)
+        for k in [&mut ks, &mut kc] {
+            if k.pacing_cap.is_some_and(|c| c < 1_000_000) {
+                k.pacing_cap = Some(1_000_000);
+            }
+        }
     }
     let resp = 2000usize;
     let sim = Sim::new(ch, ctx.log);
+    sim.with(|s| s.deadline = ctx.deadline);
     sim.with(|s| s.net = net.clone());
     let rt: Arc<dyn quinn::Runtime> = Arc::new(SimRuntime(sim.clone()));
     let res: Res = Arc::new(Mutex::new(Results::default()));
@@ -1142,7 +1150,7 @@ fn run(mut ch: Chooser, ctx: &RunCtx, faults: bool, big: bool) -> RunOut {
             nontrivial: true,
             steps: s.steps,
             sim_ns: s.now,
-            hit_limit: if finished { None } else { Some("budget") },
+            hit_limit: if finished { None } else if s.wall_aborted { Some("wall") } else { Some("budget") },
             panic: None,
             choices: s.ch.values(),
             log: std::mem::take(&mut s.log),
@@ -1335,6 +1343,7 @@ fn run_0rtt(mut ch: Chooser, ctx: &RunCtx) -> RunOut {
     let net = crate::asim::ANet { faults: false, base_delay: *ch.pick("c18.zr.delay", &[5 * MS, MS, 50 * MS, 100_000]), jitter: 0, drop: 0, dup: 0, reorder: 0, would_block: *ch.pick("c18.zr.would_block", &[0u32, 0, 50, 300]) };
     let resp = 2000usize;
     let sim = Sim::new(ch, ctx.log);
+    sim.with(|s| s.deadline = ctx.deadline);
     sim.with(|s| s.net = net.clone());
     let rt: Arc<dyn quinn::Runtime> = Arc::new(SimRuntime(sim.clone()));
     let res: Res = Arc::new(Mutex::new(Results::default()));
@@ -1417,7 +1426,7 @@ fn run_0rtt(mut ch: Chooser, ctx: &RunCtx) -> RunOut {
     }
     drop(r);
     sim.with(|s| {
-        let mut o = RunOut { violations: std::mem::take(&mut s.violations), faults: s.faults.clone(), probes: s.probes.clone(), sig: s.sig, nontrivial: true, steps: s.steps, sim_ns: s.now, hit_limit: if finished { None } else { Some("budget") }, panic: None, choices: s.ch.values(), log: std::mem::take(&mut s.log), trace: std::mem::take(&mut s.trace), stats: BTreeMap::new(), config: String::new() };
+        let mut o = RunOut { violations: std::mem::take(&mut s.violations), faults: s.faults.clone(), probes: s.probes.clone(), sig: s.sig, nontrivial: true, steps: s.steps, sim_ns: s.now, hit_limit: if finished { None } else if s.wall_aborted { Some("wall") } else { Some("budget") }, panic: None, choices: s.ch.values(), log: std::mem::take(&mut s.log), trace: std::mem::take(&mut s.trace), stats: BTreeMap::new(), config: String::new() };
         o.config = format!("0-RTT world: server {} early data on the second connection; net={:?}", if reject { "refuses" } else { "accepts" }, s.net);
         o
     })
